@@ -196,7 +196,7 @@ reg("C15",
     T("Proofs.C15", "BLDFM.C15", ["key_complete", "solveCached_correct", "crash_keeps_inv", "truncate_keeps_inv", "cache_transparent",
                                   "good_entry_persists", "cache_effective", "never_fatal", "truncated_is_miss", "incomplete_key_collides"])
     + T("Proofs.C04", "BLDFM.C04", ["footprint_indep_source_values"])
-    + T("Proofs.Bridge.Tables", "BLDFM.Bridge", ["cache_cfg_table"], "bridge"),
+    + T("Proofs.Bridge.Tables", "BLDFM.Bridge", ["cache_cfg_table", "cache_call_sites_table"], "bridge"),
     kernel_groups=["Tables"],
     partial_clauses=["SHA-256 collision freedom on the encoded argument tuples", "filesystem: os.replace is atomic; a crash leaves any PREFIX of the bytes being written",
                      "np.load rejects every proper prefix / corrupted entry (observed exhaustively per entry in the thorough tier, not proved)"],
@@ -311,3 +311,6 @@ REGISTRY["C01"]["partial_clauses"] = [
     "known finding F1: the first quartering of a coarse, strongly stretched grid gains only 2.2-2.5x (known_findings.json)"]
 REGISTRY["C01"]["assumptions"] = ["shooting denominator non-zero", "exact real/complex arithmetic", "coefficient functions Lipschitz on [z_0, z_top]",
                                   "layer thickness <= 1 (any unit: the bound's constants scale with it)"]
+REGISTRY["C06"]["theorems"] += T("Proofs.C06c", "BLDFM.C06", ["impulse_padSrc", "fields_indep_source", "impulse_roll", "footprint_point_reflection"])
+REGISTRY["C06"]["partial_clauses"] = ["float rounding (tower shift, source shift and the point-reflection clause are theorems through the whole model pipeline: tower_shift_field, "
+                                      "source_shift_field, footprint_point_reflection; re-centring at phase level: recentre_phase)"]
